@@ -43,10 +43,14 @@ TRUSTED = [
     "SAME peer address and port. asyncio contract (modelled): connection_lost is delivered once after transport.close(), "
     "and a peer address is reused only after that delivery. The model's `lose` op stands for the end of a connection "
     "however initiated. The session cipher for the bad-frame close is installed by the harness just before the frame",
+    "configuration and environment as generator dimensions (script['topo']['config'/'peers']): characteristics with "
+    "allow_invalid_client_values, restricted declared valid values, overridden range/step, an ALWAYS_NULL event type "
+    "(ProgrammableSwitchEvent: holds None by definition after the write, so only its callbacks and status are judged), "
+    "IPv4 (host, port) and IPv6 (host, port, flowinfo, scope_id) peer names; driver calls made directly use the client "
+    "address the server's own handler object holds; 'the normalised value' is computed on a never-written twin with the same configuration",
     "scope: batches are arbitrary lists of entries — the same (aid,iid) may be named several times, entries may name "
     "something that is not a characteristic (unknown iid, unknown aid, the iid of a service), entries may carry 'ev' "
-    "(subscription itself is C12's; here only that it does not disturb the write path); ALWAYS_NULL characteristics and "
-    "allow_invalid_client_values are not exercised; handlers are marked verified (is_encrypted) directly, the 401 path is C03's",
+    "(subscription itself is C12's; here only that it does not disturb the write path); handlers are marked verified (is_encrypted) directly, the 401 path is C03's",
     "for a characteristic named several times in one batch the application callback is scripted per invocation (the k-th "
     "invocation in the request behaves as scripted for the k-th entry that reaches the callback: has a non-null value "
     "the characteristic accepts); the oracle then demands only what every sequential reading of the batch grants (see judge_write)",
@@ -60,12 +64,14 @@ ACCS = [
     # (aid, name, [(service, extra chars)])
     (2, "Lamp", [("Lightbulb", ["Brightness", "Hue", "Saturation"]), ("Fan", ["RotationSpeed"])]),
     (3, "Thermo", [("Thermostat", []), ("Switch", [])]),
-    (4, "Door", [("GarageDoorOpener", []), ("LockMechanism", []), ("WindowCovering", [])]),
+    (4, "Door", [("GarageDoorOpener", []), ("LockMechanism", []), ("WindowCovering", []),
+                 ("StatelessProgrammableSwitch", [])]),  # ProgrammableSwitchEvent: an ALWAYS_NULL (event) type
 ]
 # characteristics a generated batch may address: (aid, service index, display name)
 WRITABLE = {
     "On", "Brightness", "Hue", "Saturation", "RotationSpeed", "TargetHeatingCoolingState", "TargetTemperature",
     "TemperatureDisplayUnits", "TargetDoorState", "LockTargetState", "TargetPosition", "Identify", "Name",
+    "ProgrammableSwitchEvent",
 }
 
 
@@ -147,8 +153,9 @@ class Raised(Exception):
 class World:
     """A real AccessoryDriver with a Bridge of three accessories built from shipped services."""
 
-    def __init__(self, svc_cb: List[List[int]], acc_cb: List[int]):
+    def __init__(self, svc_cb: List[List[int]], acc_cb: List[int], config: Optional[dict] = None, peers: str = "v4"):
         global _LOADER
+        self.peers = peers
         ad, hh, Accessory, Bridge = _mods()
         self.ad, self.hh = ad, hh
         if _LOADER is None:
@@ -191,6 +198,14 @@ class World:
                     svc.setter_callback = self._svc_cb(aid, sidx)
             if aid in self.acc_cb:
                 acc.setter_callback = self._acc_cb(aid, acc)
+        # non-default but legal configuration of single characteristics (keys "aid.iid")
+        config = config or {}
+        for key, vv in (config.get("vv") or {}).items():
+            self.chars[_cid(key)].override_properties(valid_values=dict(vv))
+        for key, props in (config.get("props") or {}).items():
+            self.chars[_cid(key)].override_properties(properties=dict(props))
+        for key in config.get("aicv") or []:
+            self.chars[_cid(key)].allow_invalid_client_values = True
         self.driver.http_server.loop = self.loop
         self.driver.aio_stop_event = asyncio.Event()  # what async_start creates; event delivery consults it
         self.conns: Dict[int, Any] = {}  # conn index -> (HAPServerProtocol, Transport) of the OPEN connection
@@ -239,19 +254,26 @@ class World:
         return cb
 
     # --- helpers --------------------------------------------------------------------------
-    @staticmethod
-    def addr(conn: int):
+    def addr(self, conn: int):
+        """peer name of connection slot #conn as asyncio reports it: (host, port) for IPv4,
+        (host, port, flowinfo, scope_id) for IPv6"""
+        if self.peers == "v6":
+            return (f"fe80::{conn + 1}", 50000 + conn, 0, 3)
         return (f"10.0.0.{conn + 1}", 50000 + conn)
+
+    def client(self, conn: int):
+        """the client address the server itself hands to the driver for requests of this connection"""
+        return self.conn(conn)[0].handler.client_address
 
     def values(self):
         return {cid: ch.value for cid, ch in self.chars.items()}
 
     def prepared(self):
         out = []
-        rev = {self.addr(c): c for c in range(8)}
+        rev = {self.addr(c)[:2]: c for c in range(8)}
         for addr, d in self.driver.prepared_writes.items():
             for pid, exp in d.items():
-                out.append([rev.get(addr, -1), pid, int(round(exp * 1000))])
+                out.append([rev.get(tuple(addr)[:2] if isinstance(addr, (tuple, list)) else addr, -1), pid, int(round(exp * 1000))])
         return sorted(out)
 
     def conn(self, conn: int):
@@ -343,7 +365,7 @@ class World:
                 code, body = self.http(conn, "/prepare", q)
             else:
                 try:
-                    code, body = 200, self.driver.prepare(q, self.addr(conn))
+                    code, body = 200, self.driver.prepare(q, self.client(conn))
                 except Exception as ex:  # noqa: BLE001
                     code, body = 500, {"status": "raised " + type(ex).__name__}
             return {"http": code, "status": (body or {}).get("status"), "prep": self.prepared()}
@@ -378,7 +400,7 @@ class World:
             code, body = self.http(conn, "/characteristics", q)
         else:
             try:
-                body = self.driver.set_characteristics(q, self.addr(conn))
+                body = self.driver.set_characteristics(q, self.client(conn))
                 code = 204 if body is None else 207
             except Exception as ex:  # noqa: BLE001  (dispatch would answer 500)
                 body, code = {"raised": type(ex).__name__}, 500
@@ -398,25 +420,47 @@ def _loop():
     return _LOOP
 
 
-_TWIN: Optional[World] = None
+def _cid(key: str) -> Tuple[int, int]:
+    a, i = key.split(".")
+    return int(a), int(i)
+
+
+_TWINS: Dict[str, World] = {}
+CFG: dict = {}  # configuration of the script being generated / run / judged (script["topo"]["config"])
+
+
+def set_cfg(topo: Optional[dict]):
+    global CFG
+    CFG = (topo or {}).get("config") or {}
 
 
 def twin() -> World:
-    """A never-written world: its characteristics define 'the normalised value' of a request value."""
-    global _TWIN
-    if _TWIN is None:
-        _TWIN = World([], [])
-    return _TWIN
+    """A never-written world with the current configuration: its characteristics define 'the normalised
+    value' of a request value."""
+    key = json.dumps(CFG, sort_keys=True)
+    if key not in _TWINS:
+        _TWINS[key] = World([], [], CFG)
+    return _TWINS[key]
+
+
+def always_null(cid) -> bool:
+    from pyhap.characteristic import ALWAYS_NULL
+
+    ch = twin().chars.get(cid)
+    return ch is not None and ch.type_id in ALWAYS_NULL
 
 
 def normalise(cid, value):
-    """(accepted, normalised value) by the characteristic's own validation, on a detached twin."""
+    """(accepted, normalised value) by the characteristic's own validation, on a detached twin: conversion
+    (`to_valid_value`) and — unless the characteristic is configured with allow_invalid_client_values — the
+    declared-valid-values check."""
     ch = twin().chars.get(cid)
     if ch is None:
         return False, None
     try:
         n = ch.to_valid_value(value)
-        ch.valid_value_or_raise(n)
+        if not ch.allow_invalid_client_values:
+            ch.valid_value_or_raise(n)
     except ValueError:
         return False, None
     return True, n
@@ -574,7 +618,52 @@ def gen_batch(rng, topo, conn, pid, size=None, calm=False):
     }
 
 
+def config_menu():
+    """Non-default but legal configurations of single characteristics: allow_invalid_client_values (the
+    documented way to let the application see values outside the declared valid values), a restricted set of
+    declared valid values, overridden numeric range / step."""
+    global CFG
+    saved, CFG = CFG, {}
+    try:
+        w = twin()
+        name = {}
+        for cid, ch in w.chars.items():
+            name.setdefault(ch.display_name, []).append(cid)
+        k = lambda n, aid=None: "%d.%d" % next(c for c in sorted(name[n]) if aid is None or c[0] == aid)  # noqa: E731
+        thcs, lts, tds, tdu = k("TargetHeatingCoolingState"), k("LockTargetState"), k("TargetDoorState"), k("TemperatureDisplayUnits")
+        pse, bri, tt = k("ProgrammableSwitchEvent"), k("Brightness"), k("TargetTemperature")
+        sub = {"Off": 0, "Heat": 1, "Cool": 2}
+        return [
+            {"aicv": [thcs]},
+            {"aicv": [thcs], "vv": {thcs: sub}},  # accepts Siri's "Auto" (3) although only Off/Heat/Cool are declared
+            {"vv": {thcs: sub}},
+            {"aicv": [lts, tds, tdu, pse]},
+            {"aicv": [thcs, pse], "vv": {thcs: sub, pse: {"SinglePress": 0}}, "props": {bri: {"minValue": 10, "maxValue": 50, "minStep": 5}}},
+            {"props": {tt: {"minValue": 15, "maxValue": 25, "minStep": 0.5}, bri: {"minStep": 10}}, "aicv": [tdu]},
+        ]
+    finally:
+        CFG = saved
+
+
+_MENU = None
+
+
+def gen_config(rng):
+    global _MENU
+    if _MENU is None:
+        _MENU = config_menu()
+    return {} if rng.random() < 0.5 else copy.deepcopy(rng.choice(_MENU))
+
+
 def gen_topo(rng):
+    t = _gen_topo(rng)
+    t["config"] = gen_config(rng)
+    t["peers"] = "v6" if rng.random() < 0.3 else "v4"
+    set_cfg(t)
+    return t
+
+
+def _gen_topo(rng):
     w = twin()
     svcs = sorted({(aid, s) for (aid, _), s in w.svc_of.items() if s > 0})
     mode = rng.random()
@@ -595,6 +684,7 @@ PIDS = [0, 1, 7, 11, -3]
 def boundary_scripts(rng):
     """Deterministic histories named by the property and the anchors."""
     topo = {"svcCb": [[2, 1], [3, 1], [4, 2]], "accCb": [3]}
+    set_cfg(topo)
 
     def W(conn, pid, **kw):
         return gen_batch(rng, topo, conn, pid, calm=True, **kw)
@@ -645,7 +735,11 @@ def boundary_scripts(rng):
     hs.append([P(0, TTL_HUGE, 7), P(1, TTL_HUGE, 11, True), IDLE, W(1, 11), W(0, 7)])
     hs.append([P(0, TTL_HUGE, 7, True), A(IDLE_DT_MS), W(0, 7)])  # same wait without a sweep: still live
     hs.append([P(0, TTL_HUGE, 7), IDLE, P(0, 1000, 7), W(0, 7)])
-    return [{"topo": topo, "ops": h} for h in hs]
+    out = [{"topo": topo, "ops": h} for h in hs]
+    # the same histories over IPv6 connections: the peer name is (host, port, flowinfo, scope_id)
+    topo6 = dict(topo, peers="v6")
+    out += [{"topo": topo6, "ops": copy.deepcopy(h)} for h in hs[:24:2] + hs[22:]]
+    return out
 
 
 def gen_script(rng):
@@ -698,6 +792,7 @@ def gen_script(rng):
 def mixed_boundary(rng):
     """Deterministic untimed batches: every entry kind next to every other, in one service and across."""
     out = []
+    set_cfg(None)
     w = twin()
     by_svc: Dict[Tuple[int, int], List[Tuple[int, int]]] = {}
     for c in targets():
@@ -767,6 +862,33 @@ def mixed_boundary(rng):
         a["ev"] = ev
         b = {"aid": g1[0], "iid": g1[1], "hasValue": False, "value": None, "r": None, "cb": "none", "ev": ev}
         out.append({"topo": topo_all, "ops": [wr([a, b]), wr([b, a], pid=7), wr([a], conn=1)]})
+    # characteristics with non-default configuration: a value outside the declared valid values / range / step
+    # to a characteristic with and without allow_invalid_client_values, an ALWAYS_NULL type, each next to
+    # ordinary writes on other accessories (before and after), with and without write response
+    global _MENU
+    if _MENU is None:
+        _MENU = config_menu()
+    for cfg in _MENU:
+        topo_c = dict(topo_all, config=cfg)
+        set_cfg(topo_c)
+        special = sorted({_cid(x) for x in (cfg.get("aicv") or [])} | {_cid(x) for x in (cfg.get("vv") or {})}
+                         | {_cid(x) for x in (cfg.get("props") or {})})
+        for cid in special:
+            for kind in ("ok", "norm", "reject"):
+                for cb in ("none", ["ret", "resp"]):
+                    e1 = gen_entry(rng, cid, kind)
+                    e1["cb"], e1["r"] = cb, True
+                    e0 = gen_entry(rng, rng.choice([t for t in targets() if t[0] != cid[0]]), "ok")
+                    e2 = gen_entry(rng, rng.choice([t for t in targets() if t[0] != cid[0] and t != (e0["aid"], e0["iid"])]), "ok")
+                    e0["cb"], e2["cb"] = ["ret", None], "none"
+                    out.append({"topo": topo_c, "ops": [wr([e0, e1, e2], http=rng.random() < 0.5)]})
+    set_cfg(None)
+    pse = next(c for c in targets() if w.chars[c].display_name == "ProgrammableSwitchEvent")
+    for v, cb in ((0, "none"), (1, ["ret", None]), (2, ["ret", "resp"]), (1, "raise"), (7, ["ret", None]), (None, "none")):
+        a = gen_entry(rng, g0, "ok")
+        a["cb"] = ["ret", None]
+        out.append({"topo": topo_all, "ops": [wr([{"aid": pse[0], "iid": pse[1], "hasValue": True, "value": v, "r": True, "cb": cb}, a]),
+                                              wr([{"aid": pse[0], "iid": pse[1], "hasValue": True, "value": 0, "r": None, "cb": "none"}])]})
     # failing service / accessory callbacks next to healthy services
     for sr, ar in (([[2, 1]], []), ([], [3]), ([[3, 1]], [3]), ([[4, 2]], [2])):
         ids = [c for c in targets() if c[0] in (2, 3, 4)]
@@ -785,6 +907,7 @@ def model_line(script: dict):
     """(line for the model driver, index of the model op that answers script op i).  `lose` stands for
     the end of a connection however it came about; `idle` is a clock jump followed by the loss of
     every open connection."""
+    set_cfg(script["topo"])
     w = twin()
     ops = []
     at = []
@@ -818,6 +941,7 @@ def model_line(script: dict):
                 "aid": e["aid"], "iid": e["iid"], "hasValue": e["hasValue"],
                 "value": ref.canon(e["value"]) if e["hasValue"] else None,
                 "r": bool(e.get("r")), "valid": ref.canon(n) if acc else None, "cb": cb,
+                "nulls": always_null(cid),
             })
         ops.append({"op": "write", "conn": op["conn"], "pid": op.get("pid"), "entries": entries,
                     "svcRaise": op["svcRaise"], "accRaise": op["accRaise"]})
@@ -998,9 +1122,11 @@ def judge_write(ctx: Ctx, script: dict, idx: int, ops: List[dict], obs: dict, wo
             problems = []
             if not cands:
                 problems.append("no entry carries a value acceptable for the characteristic")
-            elif not any(ref.same_value(stored, n) and type(stored) is type(n) for n in cands):
+            elif not always_null(cid) and not any(ref.same_value(stored, n) and type(stored) is type(n) for n in cands):
                 problems.append(f"stored value {stored!r} is the normalised value of none of the entries ({cands!r})")
             else:
+                if always_null(cid):
+                    stored = ccalls[-1]["arg"] if ccalls else cands[-1]  # the characteristic itself holds None by definition
                 if has_ccb and not (1 <= len(ccalls) <= len(es) and ref.same_value(ccalls[-1]["arg"], stored)):
                     problems.append(f"characteristic callback ran {len(ccalls)} time(s) with {[r['arg'] for r in ccalls]!r}, stored value is {stored!r}")
                 if has_scb and not (len(scalls) == 1 and len(svc_arg()) == 1 and ref.same_value(svc_arg()[0], stored)):
@@ -1031,7 +1157,8 @@ def judge_write(ctx: Ctx, script: dict, idx: int, ops: List[dict], obs: dict, wo
         if not acc:
             problems.append("the value is not acceptable for the characteristic")
         else:
-            if not ref.same_value(obs["after"][cid], n) or type(obs["after"][cid]) is not type(n):
+            # (an ALWAYS_NULL event type holds None by definition once the write is over: only its callbacks are judged)
+            if not always_null(cid) and (not ref.same_value(obs["after"][cid], n) or type(obs["after"][cid]) is not type(n)):
                 problems.append(f"stored value is {obs['after'][cid]!r}, normalised value is {n!r}")
             if has_ccb and not (len(ccalls) == 1 and ref.same_value(ccalls[0]["arg"], n)):
                 problems.append(f"characteristic callback ran {len(ccalls)} time(s) with {[r['arg'] for r in ccalls]!r}, expected once with {n!r}")
@@ -1100,8 +1227,9 @@ def strip(ops):
 
 def run_script(ctx: Ctx, script: dict, judge=True, sink=None):
     """Run one history on a fresh real world; returns (ops with times, observations)."""
+    set_cfg(script["topo"])
     ops = stamp(script["ops"])
-    world = World(script["topo"]["svcCb"], script["topo"]["accCb"])
+    world = World(script["topo"]["svcCb"], script["topo"]["accCb"], script["topo"].get("config"), script["topo"].get("peers", "v4"))
     obs = []
     for i, op in enumerate(ops):
         o = world.apply(op)
@@ -1212,6 +1340,7 @@ def run(ctx: Ctx):
                 pass
             if texts:
                 f.description = texts[0]
+        _drop_misattributed(ctx)
         model = run_model_parallel("C10", lines)
         for sc, (ops, obs), m, at in zip(scripts, impl_all, model, ats):
             st.traces_validated += 1
@@ -1275,6 +1404,28 @@ def _count(ctx: Ctx, sc, ops, obs):
     st.case(strip(ops), nontrivial)
 
 
+def _drop_misattributed(ctx: Ctx):
+    """An aborted request that names a nonexistent id is attributed to that id only if the same request
+    without the nonexistent entries is NOT aborted (otherwise it is the plain C10:write-request-aborted)."""
+    keep = []
+    for f in ctx.failures:
+        if f.signature == "C10:nonexistent-characteristic-aborts-request" and f.replay.get("ops"):
+            set_cfg(f.replay["topo"])
+            ops = copy.deepcopy(f.replay["ops"])
+            for op in ops:
+                if op["op"] == "write":
+                    op["entries"] = [e for e in op["entries"] if not is_ghost(e)]
+            if fails_with(ctx, {"topo": f.replay["topo"], "ops": ops}, "C10:write-request-aborted"):
+                if not any(g.signature == "C10:write-request-aborted" for g in ctx.failures):
+                    f.signature = "C10:write-request-aborted"
+                    f.replay = dict(f.replay, ops=ops)
+                    f.description = "the write request was aborted by an exception (HTTP 500): no status per characteristic"
+                    keep.append(f)
+                continue
+        keep.append(f)
+    ctx.failures[:] = keep
+
+
 def search(ctx: Ctx):
     """Deeper oracle-only failing-input search on the real code."""
     saved = ctx.tier
@@ -1288,6 +1439,7 @@ def search(ctx: Ctx):
                 for f in ctx.failures[n:]:
                     small = minimise(ctx, {"topo": sc["topo"], "ops": copy.deepcopy(sc["ops"][: f.replay["at"] + 1])}, f.signature)
                     f.replay = {"kind": "script", "topo": small["topo"], "ops": small["ops"]}
+            _drop_misattributed(ctx)
     finally:
         ctx.tier = saved
 
